@@ -30,6 +30,9 @@ checks={
  "C20":dict(engine="E3",cat="exploration",tech=E3T,
    text="every ordered pair and every triple of a universe of ~500 values (all 20 types, nil vs empty payloads, summaries differing in one field, containers of equal size with different keys / orders / element types) is evaluated on the real Equals/CompareTo: totality, reflexivity, equality with the decoded copy, symmetry, transitivity, sign reversal, zero-iff-equal for scalars, type-consistent cross-type order",
    note="NaN only for totality; known findings (map comparison has no canonical order) are listed in known_findings.jsonl",ref="DESIGN.md 4 C20"),
+ "C03":dict(engine="E3",cat="exploration",tech=E3T,
+   text="all 65536 type codes probed; for each of 37 pack types (factory-registered and unregistered server-monitoring packs) every object with at most 1 (2 thorough) reflected field slots deviating from two bases over boundary alphabets is encoded, decoded, checked for same concrete type, exact consumption and byte-identical re-encode; a pinned carried-field baseline catches a field dropped from writer and reader alike; record-list packs (0-3 records, every single-field deviation of each record type, every record version), zip / log-sink zip (every inner sequence up to length 2 (3), thresholds len-1/len/len+1) return records unchanged, in order and stamped",
+   note="constructor invariants preserved; wire-equivalence instead of field equality; known findings: ServerInfoPack writer/reader disagreement, CounterPack1 poid meter",ref="DESIGN.md 4 C03"),
  "C09":dict(engine="E2",cat="model_checking",tech=ES,
    text="every operation history up to the stated depth (fixpoint where the alphabet is finite) over every public method of the 13 linked types, every constructor (capacity x load factor) and prefilled states around the growth thresholds, executed on the real type and compared step by step and state by state with an insertion-ordered dictionary model",
    note="bounds: 3 keys (colliding in bucket 0 of the 101- and 203-bucket tables, plus the empty string / extreme keys) x 2 values, depth 5 quick / 6-7 thorough; lenient points of the model are listed in DESIGN.md Appendix A; ToString and serialisation are not operations of this property",ref="DESIGN.md 4 C09"),
